@@ -1,5 +1,5 @@
 (* Lemmas about model/Watcher.v (property C03). *)
-From Verif Require Import Common RoleTree RoleTree_proofs TaskCmd Gen_FailureLabel Watcher.
+From Verif Require Import Common RoleTree RoleTree_proofs TaskCmd Gen_FailureLabel Gen_Reconcile Watcher.
 Open Scope N_scope.
 
 (* ------------------------------------------------------------------ *)
@@ -1046,3 +1046,15 @@ Qed.
 
 Lemma routed_by_owner_in_source : routed_by_owner = true.
 Proof. vm_compute. reflexivity. Qed.
+
+(* ------------------------------------------------------------------ *)
+(* 13. Benign status traffic                                           *)
+(* ------------------------------------------------------------------ *)
+
+Lemma refresh_keeps_ownership_in_source : refresh_keeps_ownership = true.
+Proof. vm_compute. reflexivity. Qed.
+
+(* in the model a refresh changes nothing, so every theorem about a later failure applies to the state
+   before it *)
+Lemma run_sop_refresh s : run_sop SRefresh s = clear_log s.
+Proof. reflexivity. Qed.
